@@ -215,7 +215,7 @@ func init() {
 			Rule: "case = one generated write history (inline mode with explicit checkpoints, or background mode with the real SyncWAL loop at ms timers; 2 fixed + 2 variable buckets, intervals on both sides of a year boundary, repeated intervals, multi-bucket requests) executed by the real server code under strace; " +
 				"every prefix of its file-mutating system calls is materialised as a crash state and restarted with the real start-up; " + what + "; a crash state is non-trivial/distinct by the content hash of its tree",
 			Assumptions:  []string{crashAssumptions},
-			Cases:        crashCases(4, 40),
+			Cases:        crashCases(map[bool]int{true: 5, false: 4}[id == "C03"], 40),
 			Batch:        1,
 			Par:          2,
 			BatchTimeout: 30 * time.Minute,
@@ -233,6 +233,14 @@ func init() {
 					o.Writes = 10 + r.Intn(6)
 				}
 				h := genHistory(r, o)
+				if id == "C03" && c.Case%5 == 4 {
+					// C03's quantifier includes the power-loss model: every fifth case applies the bounded
+					// loss/tear patterns (see C04) and judges "restart succeeds, buckets readable" on them
+					h = genHistory(c.R("hist-loss"), genOpts{Writes: 5 + r.Intn(3), Checkpoints: true, VarHeavy: c.Case%10 == 9})
+					processLossCase(c, h, false, 16, pick, &res)
+					res.Count("crash_states", res.Counts["loss_states"])
+					return res
+				}
 				processCrashCase(c, h, pick, &res)
 				return res
 			},
